@@ -19,6 +19,13 @@ Fixpoint aclose (K : list (list pt)) (t : list pt) : option (ring * list (list p
 
 Definition astate := (list (list pt) * list ring)%type.
 
+(** the closing phase of a step *)
+Definition aphase (q : list pt) (rest : list (list pt)) (D : list ring) (v : pt) : astate :=
+  match aclose rest (q ++ [v]) with
+  | Some (ring, rest') => (rest', D ++ [ring])
+  | None => ((q ++ [v]) :: rest, D)
+  end.
+
 (** one vertex with index > 0; [lastp]: it is the closing vertex of checkRing *)
 Definition astep (isMulti : pt -> bool) (lastp : bool) (v : pt) (a : astate) : option astate :=
   let '(K, D) := a in
@@ -27,11 +34,7 @@ Definition astep (isMulti : pt -> bool) (lastp : bool) (v : pt) (a : astate) : o
   | q :: rest =>
       if negb (isMulti v) && negb lastp then Some ((q ++ [v]) :: rest, D)
       else
-        let t := q ++ [v] in
-        let '(K2, D2) := match aclose rest t with
-                         | Some (ring, rest') => (rest', D ++ [ring])
-                         | None => (t :: rest, D)
-                         end in
+        let '(K2, D2) := aphase q rest D v in
         if negb lastp then Some ([v] :: K2, D2)
         else match K2 with [] => Some ([], D2) | _ => None end
   end.
@@ -188,11 +191,6 @@ Proof.
 Qed.
 
 (** ** the closing phase of a step *)
-Definition aphase (q : list pt) (rest : list (list pt)) (D : list ring) (v : pt) : astate :=
-  match aclose rest (q ++ [v]) with
-  | Some (ring, rest') => (rest', D ++ [ring])
-  | None => ((q ++ [v]) :: rest, D)
-  end.
 
 Lemma last_cons_default {A} (t : A) (B : list A) d : last (t :: B) d = last B t.
 Proof.
@@ -363,3 +361,223 @@ Section Phase.
     apply Forall_app. split; [exact H | constructor; [exact Hr | constructor]].
   Qed.
 End Phase.
+
+(** ** the invariant of the loop: shape + conservation of directed edges *)
+Record sinv (r0 : pt) (pref : list pt) (a : astate) : Prop := mkSinv {
+  s_a : ainv r0 (last pref dp) (fst a);
+  s_edges : Permutation (concat (map pairs (fst a)) ++ concat (map dedges (snd a))) (pairs pref);
+  s_ne : Forall (fun ring : ring => ring <> []) (snd a) }.
+
+Lemma sinv_init r0 : sinv r0 [r0] ([[r0]], []).
+Proof.
+  constructor; cbn [fst snd].
+  - constructor; cbn; try tauto; try discriminate.
+    + repeat constructor. discriminate.
+    + repeat constructor. intros [].
+  - apply Permutation_refl.
+  - constructor.
+Qed.
+
+Lemma astep_nonlast isMulti r0 pref v a : sinv r0 pref a -> pref <> [] ->
+  exists a', astep isMulti false v a = Some a' /\ sinv r0 (pref ++ [v]) a'.
+Proof.
+  intros [Ha He Hn] Hp. destruct a as [K D]. cbn [fst snd] in *.
+  destruct K as [| q rest]; [exfalso; apply (a_some _ _ _ Ha); reflexivity |].
+  assert (Hq : q <> []) by (pose proof (a_ne _ _ _ Ha) as H; inversion H; assumption).
+  assert (Hl : last q dp = last pref dp) by apply (a_prev _ _ _ Ha).
+  cbn [astep]. destruct (negb (isMulti v) && negb false) eqn:Epl.
+  - eexists. split; [reflexivity |]. constructor; cbn [fst snd].
+    + constructor.
+      * pose proof (a_ne _ _ _ Ha) as H. inversion H; subst. constructor; [| assumption].
+        intro E. apply app_eq_nil in E. destruct E; discriminate.
+      * apply (chain_replace_hd _ q); [apply hd_app, Hq | apply (a_chain _ _ _ Ha)].
+      * discriminate.
+      * pose proof (a_bottom _ _ _ Ha) as Hb. destruct rest as [| q1 R].
+        -- cbn [last] in *. rewrite hd_app by exact Hq. exact Hb.
+        -- rewrite last_cons_ne in * by discriminate. exact Hb.
+      * cbn [map]. rewrite hd_app by exact Hq. apply (a_nodup _ _ _ Ha).
+      * cbn [hd]. rewrite !last_snoc. reflexivity.
+    + cbn [map concat] in *. rewrite !pairs_snoc1 by assumption. rewrite Hl. perm_count.
+    + exact Hn.
+  - destruct (aphase q rest D v) as [K2 D2] eqn:Eph. cbn [negb].
+    eexists. split; [reflexivity |]. constructor; cbn [fst snd].
+    + constructor.
+      * constructor; [discriminate | apply (phase_ne _ _ _ _ _ _ Ha _ _ Eph)].
+      * apply (phase_chain _ _ _ _ _ _ Ha _ _ Eph).
+      * discriminate.
+      * destruct K2 as [| q1 R] eqn:EK.
+        -- cbn [last hd]. apply (phase_empty _ _ _ _ _ _ Ha _ _ Eph). reflexivity.
+        -- rewrite last_cons_ne by discriminate. apply (phase_bottom _ _ _ _ _ _ Ha _ _ Eph). discriminate.
+      * apply (phase_nodup _ _ _ _ _ _ Ha _ _ Eph).
+      * cbn [hd last]. rewrite last_snoc. reflexivity.
+    + pose proof (phase_edges _ _ _ _ _ _ Ha _ _ Eph) as P. cbn [map concat] in *.
+      rewrite pairs_snoc1 by assumption. rewrite Hl in P. change (pairs [v]) with (@nil (pt * pt)).
+      perm_count.
+    + apply (phase_done_ne _ _ _ _ _ _ Ha _ _ Eph), Hn.
+Qed.
+
+Lemma astep_last isMulti r0 pref a : sinv r0 pref a -> pref <> [] ->
+  exists D', astep isMulti true r0 a = Some ([], D') /\
+             Permutation (concat (map dedges D')) (pairs (pref ++ [r0])) /\
+             Forall (fun ring : ring => ring <> []) D'.
+Proof.
+  intros [Ha He Hn] Hp. destruct a as [K D]. cbn [fst snd] in *.
+  destruct K as [| q rest]; [exfalso; apply (a_some _ _ _ Ha); reflexivity |].
+  assert (Hl : last q dp = last pref dp) by apply (a_prev _ _ _ Ha).
+  cbn [astep]. rewrite andb_false_r. destruct (aphase q rest D r0) as [K2 D2] eqn:Eph. cbn [negb].
+  pose proof (phase_closing _ _ _ _ _ _ Ha _ _ Eph eq_refl) as ->.
+  exists D2. split; [reflexivity |]. split.
+  - pose proof (phase_edges _ _ _ _ _ _ Ha _ _ Eph) as P. cbn [map concat] in *.
+    rewrite pairs_snoc1 by assumption. rewrite Hl in P. perm_count.
+  - apply (phase_done_ne _ _ _ _ _ _ Ha _ _ Eph), Hn.
+Qed.
+
+(** the whole loop over [tl r ++ [r0]]: it never fails, empties the stack and conserves the edges *)
+Lemma aloop_total isMulti r0 : forall l pref a, sinv r0 pref a -> pref <> [] ->
+  exists D', aloop isMulti (l ++ [r0]) a = Some ([], D') /\
+             Permutation (concat (map dedges D')) (pairs (pref ++ l ++ [r0])) /\
+             Forall (fun ring : ring => ring <> []) D'.
+Proof.
+  induction l as [| v l IH]; intros pref a Hs Hp.
+  - cbn [app aloop isnil]. destruct (astep_last isMulti r0 pref a Hs Hp) as [D' [E [P N]]].
+    rewrite E. exists D'. auto.
+  - cbn [app aloop]. replace (isnil (l ++ [r0])) with false by (destruct l; reflexivity).
+    destruct (astep_nonlast isMulti r0 pref v a Hs Hp) as [a' [E Hs']]. rewrite E.
+    assert (Hp' : pref ++ [v] <> []) by (intro X; apply app_eq_nil in X; destruct X; discriminate).
+    destruct (IH (pref ++ [v]) a' Hs' Hp') as [D' [E' [P N]]].
+    exists D'. split; [exact E' |]. split; [| exact N]. rewrite <- app_assoc in P. exact P.
+Qed.
+
+Theorem asplit_total_conserves isMulti (r : ring) r0 t : r = r0 :: t ->
+  exists D, aloop isMulti (t ++ [r0]) ([[r0]], []) = Some ([], D) /\
+            Permutation (concat (map dedges D)) (dedges r) /\
+            Forall (fun ring : ring => ring <> []) D.
+Proof.
+  intros ->. destruct (aloop_total isMulti r0 t [r0] _ (sinv_init r0)) as [D [E [P N]]]; [discriminate |].
+  exists D. split; [exact E |]. split; [| exact N]. exact P.
+Qed.
+
+(** ** invariant C: when every repeated vertex is flagged, the path on the stack is repeat-free *)
+Fixpoint path (K : list (list pt)) : list pt :=
+  match K with
+  | [] => []
+  | q :: rest => match rest with [] => q | _ => path rest ++ tl q end
+  end.
+
+Lemma path_cons q rest : rest <> [] -> path (q :: rest) = path rest ++ tl q.
+Proof. destruct rest; [congruence | reflexivity]. Qed.
+
+Lemma path_merge u q rest : q <> [] -> path (u :: q :: rest) = path ((q ++ tl u) :: rest).
+Proof.
+  intro Hq. destruct rest as [| r1 R].
+  - reflexivity.
+  - rewrite (path_cons u) by discriminate. rewrite (path_cons q) by discriminate.
+    rewrite (path_cons (q ++ tl u)) by discriminate. destruct q; [congruence |]. cbn [tl app].
+    rewrite app_assoc. reflexivity.
+Qed.
+
+Lemma path_snoc q rest v : q <> [] -> path ((q ++ [v]) :: rest) = path (q :: rest) ++ [v].
+Proof.
+  intro Hq. destruct rest as [| r1 R]; [reflexivity |].
+  rewrite !path_cons by discriminate. destruct q; [congruence |]. cbn [tl app]. rewrite app_assoc. reflexivity.
+Qed.
+
+Lemma last_path K : K <> [] -> Forall (fun q => q <> []) K -> chain K ->
+  last (path K) dp = last (hd [] K) dp.
+Proof.
+  induction K as [| q rest IH]; intros Hne Hf Hc; [congruence |].
+  destruct rest as [| q1 R]; [reflexivity |].
+  rewrite path_cons by discriminate. cbn [hd].
+  inversion Hf as [| ? ? Hq Hrest]; subst. cbn [chain] in Hc. destruct Hc as [Hl Hc].
+  destruct q as [| a [| b q']]; [congruence | |].
+  - cbn [tl]. rewrite app_nil_r. rewrite IH by (try discriminate; assumption). cbn [hd last] in *. exact Hl.
+  - rewrite last_app_r by discriminate. reflexivity.
+Qed.
+
+Lemma in_path K x : In x (path K) -> exists q, In q K /\ In x q.
+Proof.
+  induction K as [| q rest IH]; [intros [] |].
+  destruct rest as [| q1 R].
+  - intro H. exists q. split; [left; reflexivity | exact H].
+  - rewrite path_cons by discriminate. intro H. apply in_app_or in H. destruct H as [H | H].
+    + destruct (IH H) as [q' [H1 H2]]. exists q'. split; [right; exact H1 | exact H2].
+    + exists q. split; [left; reflexivity |]. destruct q; [destruct H | right; exact H].
+Qed.
+
+Lemma path_ne K : K <> [] -> Forall (fun q => q <> []) K -> path K <> [].
+Proof.
+  induction K as [| q rest IH]; intros Hne Hf; [congruence |].
+  inversion Hf as [| ? ? Hq Hrest]; subst.
+  destruct rest as [| q1 R]; [exact Hq |].
+  rewrite path_cons by discriminate. intro E. apply app_eq_nil in E. destruct E as [E _].
+  revert E. apply IH; [discriminate | exact Hrest].
+Qed.
+
+(** the merged top [u] of a repeat-free path is repeat-free and shares nothing but its first
+    vertex with the path below it *)
+Lemma nodup_top u K : u <> [] -> Forall (fun q => q <> []) K -> chain (u :: K) -> NoDup (path (u :: K)) ->
+  NoDup u /\ NoDup (path K) /\ incl (path K) (path (u :: K)) /\ (forall x, In x (path K) -> ~ In x (tl u)).
+Proof.
+  intros Hu Hne Hc ND. destruct K as [| q rest].
+  - cbn [path] in *. repeat split; [exact ND | constructor | intros x [] | intros x []].
+  - rewrite path_cons in * by discriminate.
+    assert (Hl : In (hd dp u) (path (q :: rest))).
+    { cbn [chain] in Hc. destruct Hc as [Hl Hc]. rewrite <- Hl.
+      change q with (hd [] (q :: rest)).
+      rewrite <- (last_path (q :: rest)) by (try discriminate; assumption).
+      apply last_In. apply path_ne; [discriminate | assumption]. }
+    split; [| split; [apply (NoDup_app_l _ _ ND) | split]].
+    + destruct u as [| a u']; [congruence |]. cbn [hd tl] in *. constructor.
+      * apply (NoDup_app_disjoint _ _ _ ND), Hl.
+      * apply (NoDup_app_r _ _ ND).
+    + intros x Hx. apply in_or_app. left. exact Hx.
+    + intros x Hx. apply (NoDup_app_disjoint _ _ _ ND), Hx.
+Qed.
+
+Section Flags.
+  Variable isMulti : pt -> bool.
+
+  (** the property carried through [aclose]: flagged vertices on the path start a partial,
+      or lie inside the merged top [u] *)
+  Definition flagQ (u : list pt) (K : list (list pt)) : Prop :=
+    forall x, isMulti x = true -> In x (path (u :: K)) ->
+              In x (map (hd dp) K) \/ x = hd dp u \/ In x (tl u).
+
+  Lemma aclose_nodup K : forall u v ring K', u <> [] -> Forall (fun q => q <> []) K -> chain (u :: K) ->
+    NoDup (path (u :: K)) -> flagQ u K -> aclose K (u ++ [v]) = Some (ring, K') ->
+    NoDup ring /\ NoDup (path K') /\ incl (path K') (path (u :: K)) /\
+    (forall x, isMulti x = true -> In x (path K') -> In x (map (hd dp) K') \/ x = v).
+  Proof.
+    induction K as [| q rest IH]; intros u v ring K' Hu Hne Hc ND HQ H.
+    - cbn [aclose] in H. destruct (closedb (u ++ [v])) eqn:C; [| discriminate]. inversion H; subst.
+      rewrite removelast_last. cbn [path] in *. repeat split; try assumption.
+      + constructor.
+      + intros x [].
+      + intros x _ [].
+    - cbn [aclose] in H. destruct (closedb (u ++ [v])) eqn:C.
+      + inversion H; subst. rewrite removelast_last.
+        unfold closedb in C. apply pt_eqb_eq in C. rewrite hd_app, last_snoc in C by exact Hu.
+        destruct (nodup_top u _ Hu Hne Hc ND) as [N1 [N2 [N3 N4]]].
+        repeat split; try assumption.
+        intros x Fx Hx. destruct (HQ x Fx (N3 x Hx)) as [Q | [Q | Q]]; [left; exact Q | right; congruence |].
+        exfalso. apply (N4 x Hx Q).
+      + inversion Hne as [| ? ? Hq Hrest]; subst.
+        assert (Et : q ++ tl (u ++ [v]) = (q ++ tl u) ++ [v]).
+        { destruct u; [congruence |]. cbn [tl app]. rewrite app_assoc. reflexivity. }
+        rewrite Et in H.
+        assert (Hu' : q ++ tl u <> []) by (intro E; apply app_eq_nil in E; destruct E; congruence).
+        cbn [chain] in Hc. destruct Hc as [Hl Hc].
+        assert (Hc' : chain ((q ++ tl u) :: rest)).
+        { apply (chain_replace_hd _ q); [apply hd_app, Hq | exact Hc]. }
+        rewrite (path_merge u q rest Hq) in ND.
+        assert (HQ' : flagQ (q ++ tl u) rest).
+        { intros x Fx Hx. rewrite <- (path_merge u q rest Hq) in Hx.
+          destruct (HQ x Fx Hx) as [Q | [Q | Q]].
+          - cbn [map] in Q. destruct Q as [Q | Q]; [right; left; rewrite hd_app by exact Hq; congruence | left; exact Q].
+          - right. rewrite Q, <- Hl. destruct q as [| a [| b q']]; [congruence | left; reflexivity |].
+            right. change (In (last (b :: q') dp) ((b :: q') ++ tl u)). apply in_or_app. left. apply last_In. discriminate.
+          - right. right. destruct q; [congruence |]. cbn [app tl]. apply in_or_app. right. exact Q. }
+        destruct (IH _ _ _ _ Hu' Hrest Hc' ND HQ' H) as [N1 [N2 [N3 N4]]].
+        rewrite (path_merge u q rest Hq). repeat split; assumption.
+  Qed.
+End Flags.
